@@ -10,8 +10,8 @@ package main
 // run:  exit=<n> out=<hex> nerr=<number of "failed to process JSON line" log lines>
 
 import (
-	"context"
 	"bytes"
+	"context"
 	"encoding/json"
 	"fmt"
 	"os"
